@@ -18,6 +18,10 @@ TRUSTED_INC = ["hand-written small-step Gallina model of experimental/incrementa
                "hooks experimental/incremental/verif_hooks.go under build tag verif)"]
 
 
+POISON = {"cancelled-run-result-cached", "pending-task-leaked-by-cancelled-run", "overlapping-run-waits-on-panicked-leader",
+          "run-hangs", "stale-value-cached", "stale-value-returned", "panicking-query-cached"}
+
+
 def flat(deps, k):
     return [d for g in deps[k] for d in g]
 
@@ -131,7 +135,7 @@ def oracle(case, out):
                 missing = sorted(set(o["keys"]) - set(want))
                 if missing:
                     V("evict-leaves-dependent-cached", tag + "keys %s depend on an evicted key but stay cached" % missing)
-                if extra:
+                if extra and not had_panic_run:
                     V("evict-removes-unrelated-key", tag + "keys %s do not depend on an evicted key but were removed" % extra)
             cached = set(o["keys"])
             check_edges(V, tag, deps, cached, o.get("tasks") or [], strict=not had_panic_run)
@@ -159,7 +163,7 @@ def oracle(case, out):
         # execute counts
         for k in range(n):
             c = o["execs"][k]
-            if c > 1:
+            if c > 1 and not P:
                 V("executed-twice", tag + "key %d executed %d times without an eviction in between" % (k, c))
             if c >= 1 and k not in exec_set:
                 V("cached-key-reexecuted", tag + "key %d was cached (or not needed) but executed" % k)
@@ -252,6 +256,8 @@ def oracle(case, out):
             if o["keys"] != want:
                 V("cache-contents-wrong", tag + "Keys() = %s, expected %s" % (o["keys"], want))
         cached = set(o["keys"])
+        if any(k in POISON for k, _ in viol):
+            break   # the executor's state is corrupted from here on; later differences are consequences
         check_edges(V, tag, deps, cached, tasks, strict=not had_panic_run and not P)
     return viol
 
